@@ -1221,7 +1221,9 @@ def run(chk: Check) -> None:
         # normal form on the implementation: http_date(parse_date(t)) is read back as the same instant
         try:
             r1 = T(lambda: H.parse_date(t_))
-            if r1 is not None and r1.year >= 100:
+            # the year that http_date WRITES is the UTC year of the instant: 0100-01-01 23:00 +2359 is written as year 0099,
+            # which the library reads back as 1999 (C06_date_small_year_refuted: years below 100 are outside the domain)
+            if r1 is not None and r1.year >= 100 and r1.astimezone(dtm.timezone.utc).year >= 100:
                 r2 = T(lambda: H.parse_date(H.http_date(r1)))
                 if r2 is None or r2 != r1:
                     rt_fail("date-normal-form", f"parse_date(http_date(parse_date({t_!r}))) = {r2!r} != {r1!r}", {"text": t_})
